@@ -820,6 +820,11 @@ func (in *Interp) callBuiltinValue(caller *frame, f FuncV, args []Value, pos tok
 		return in.zero(res)
 	}
 	if h, ok := modelMethods[f.Builtin]; ok {
+		if f.Builtin == "model:ctxnode.cancel" {
+			if ov, ok := f.Recv.(OpaqueV); ok {
+				in.cancelTarget, _ = ov.Data.(*ctxNode)
+			}
+		}
 		return h(in, caller, nil, args, pos)
 	}
 	in.unsupported("builtin %s", f.Builtin)
